@@ -20,20 +20,6 @@ pub(crate) const EV_MAX: usize = 8;
 static mut EV_N: usize = 0;
 static mut EV_KIND: [u8; EV_MAX] = [0; EV_MAX];
 static mut EV_ARG: [u64; EV_MAX] = [0; EV_MAX];
-// three separate images (no nested arrays: see DESIGN.md section 2 on Kani and nested-array rows)
-static mut EV_IMG0: [u8; DB_HEADER_SIZE] = [0; DB_HEADER_SIZE];
-static mut EV_IMG1: [u8; DB_HEADER_SIZE] = [0; DB_HEADER_SIZE];
-static mut EV_IMG2: [u8; DB_HEADER_SIZE] = [0; DB_HEADER_SIZE];
-
-fn ev_img(i: usize) -> &'static [u8; DB_HEADER_SIZE] {
-    unsafe {
-        match i {
-            0 => &EV_IMG0,
-            1 => &EV_IMG1,
-            _ => &EV_IMG2,
-        }
-    }
-}
 static mut EV_IMG_N: usize = 0;
 // what a concurrent observer could read at the moment of each event (no lock is held then)
 static mut EV_PUB_ID: [u64; EV_MAX] = [0; EV_MAX];
@@ -41,6 +27,23 @@ static mut EV_PUB_DURABLE_ID: [u64; EV_MAX] = [0; EV_MAX];
 static mut EV_PUB_SEEN: [bool; EV_MAX] = [false; EV_MAX];
 // index of the storage event that fails (usize::MAX: none)
 static mut FAIL_AT: usize = usize::MAX;
+// The header each write_header call was given (a clone; by c10_header_codec the byte image
+// to_bytes(true) is a function of exactly its fields, and write_header's body is the single line
+// `storage.write(0, ..).copy_from_slice(&header.to_bytes(true))`).  Three separate statics: no
+// nested arrays (DESIGN.md 9.1).
+static mut EV_H0: Option<DatabaseHeader> = None;
+static mut EV_H1: Option<DatabaseHeader> = None;
+static mut EV_H2: Option<DatabaseHeader> = None;
+
+fn ev_hdr(i: usize) -> &'static DatabaseHeader {
+    unsafe {
+        match i {
+            0 => EV_H0.as_ref().unwrap(),
+            1 => EV_H1.as_ref().unwrap(),
+            _ => EV_H2.as_ref().unwrap(),
+        }
+    }
+}
 
 fn log_event(this: &TransactionalMemory, kind: u8, arg: u64) -> Result {
     unsafe {
@@ -69,9 +72,9 @@ pub(in crate::tree_store::page_store) fn stub_write_header(this: &TransactionalM
     unsafe {
         assert!(EV_IMG_N < 3);
         match EV_IMG_N {
-            0 => EV_IMG0 = header.to_bytes(true),
-            1 => EV_IMG1 = header.to_bytes(true),
-            _ => EV_IMG2 = header.to_bytes(true),
+            0 => EV_H0 = Some(header.clone()),
+            1 => EV_H1 = Some(header.clone()),
+            _ => EV_H2 = Some(header.clone()),
         }
         EV_IMG_N += 1;
     }
@@ -129,8 +132,11 @@ pub(crate) fn events() -> (usize, [u8; EV_MAX]) {
     unsafe { (EV_N, EV_KIND) }
 }
 
+/// god byte the i-th written header serialises to (bit 0 primary, bit 1 recovery, bit 2 2PC:
+/// formula proved by c10_header_codec)
 pub(crate) fn image_god_byte(i: usize) -> u8 {
-    ev_img(i)[9]
+    let h = ev_hdr(i);
+    (h.verif_primary_index() as u8) | if h.recovery_required { 2 } else { 0 } | if h.two_phase_commit { 4 } else { 0 }
 }
 
 pub(crate) fn set_cur_mem(mem: &TransactionalMemory) {
@@ -211,11 +217,9 @@ fn commit_events_body(p: usize, two_phase: bool, with_fault: bool) {
     // expected images, by the header methods on a clone of the pre-state
     let mut h1 = h0.clone();
     h1.write_secondary_slot(id, user, sys);
-    let w1 = h1.to_bytes(true);
     let mut h2 = h1.clone();
     h2.swap_primary_slot();
     h2.two_phase_commit = two_phase;
-    let w2 = h2.to_bytes(true);
     let expected: [u8; 4] = if two_phase { [EV_W, EV_F, EV_W, EV_F] } else { [EV_W, EV_W, EV_F, 0] };
     let n_expected = if two_phase { 4 } else { 3 };
     let n = unsafe { EV_N };
@@ -237,9 +241,9 @@ fn commit_events_body(p: usize, two_phase: bool, with_fault: bool) {
         if i < n {
             assert!(unsafe { EV_KIND[i] } == expected[i], "storage events in the documented order");
             if expected[i] == EV_W {
-                let want = if img == 0 { &w1 } else { &w2 };
-                assert!(img_eq(ev_img(img), want), "header image equals the header-method image");
-                assert!(ev_img(img)[9] & 2 != 0, "recovery_required stays set in every image");
+                let want = if img == 0 { &h1 } else { &h2 };
+                assert!(hh::header_fields_eq(ev_hdr(img), want), "the header written equals the header-method result");
+                assert!(ev_hdr(img).recovery_required, "recovery_required stays set in every header written");
                 img += 1;
             }
             // observer: nothing of the new commit is visible while commit() is still running
@@ -363,7 +367,7 @@ fn c03_non_durable_commit() {
 
 // ---- C01 / C08 / C20: shutdown -----------------------------------------------------------------
 
-// @harness props=C01,C08,C20 tier=quick timeout=1800 mem=16 stubbing=1 replay=scenario:shutdown
+// @harness props=C01,C08,C20 tier=quick timeout=1800 mem=16 stubbing=1 replay=scenario:shutdown flavor=nodebug
 // @desc the real close(): recovery_required is cleared on disk only when no I/O error is latched, an allocator state is loaded, needs_repair is clear and the preceding flush succeeded - then the events are F W(clean) F and the image has the flag clear; in every other case no header is written (so the flag stays set and the next open repairs); backend.close() is called exactly once in every case, after the last storage event
 // @functions TransactionalMemory::{close,flush_shutdown_header,needs_repair}, PagedCachedFile::{close,check_io_errors}, CheckedBackend::{close,check_failure}
 // @bound one close; header state, latched error, needs_repair, allocator presence, failure position symbolic
@@ -416,7 +420,7 @@ fn c08_shutdown_events() {
         assert!(n == 1 && unsafe { EV_IMG_N } == 0, "failed first flush: header not rewritten");
     } else {
         assert!(unsafe { EV_KIND[0] } == EV_F && unsafe { EV_KIND[1] } == EV_W);
-        assert!(ev_img(0)[9] & 2 == 0, "clean image has recovery_required clear");
+        assert!(!ev_hdr(0).recovery_required, "the header written at clean shutdown has recovery_required clear");
         if fail_at > 2 {
             assert!(n == 3 && unsafe { EV_KIND[2] } == EV_F, "F W F");
             kani::cover!(r.is_ok(), "clean shutdown");
@@ -452,8 +456,8 @@ fn c01_recovery_flag_writes() {
     assert!(unsafe { EV_N } == 2 && unsafe { EV_KIND[0] } == EV_W && unsafe { EV_KIND[1] } == EV_F);
     let mut want = h0.clone();
     want.recovery_required = !which;
-    assert!(img_eq(ev_img(0), &want.to_bytes(true)), "only the recovery flag changes");
-    assert!((ev_img(0)[9] & 2 != 0) == !which);
+    assert!(hh::header_fields_eq(ev_hdr(0), &want), "only the recovery flag changes");
+    assert!(ev_hdr(0).recovery_required == !which);
     kani::cover!(which, "cleared");
     kani::cover!(!which, "set");
     core::mem::forget(r);
